@@ -190,6 +190,9 @@ def big_documents(thorough=False):
         out.append(("bad-unexpected-indent-%d" % n, "Feature: f\n Scenario: s\n  Given x\n" + " " * n + "Examples:\n" + " " * n + "| a |\n" + "\t" * n + "nonsense\n"))
         out.append(("bad-many-errors-%d" % n, "Feature: f\n" + "".join(" Scenario: s%d\n  Given x\n  bad line %d\n" % (i, i) for i in range(n))))
         out.append(("bad-eof-in-docstring-%d" % n, "Feature: f\n Scenario: s\n  Given d\n   \"\"\"\n" + "x\n" * n))
+    out.append(("source-over-4MiB", "Feature: f\n Scenario: s\n  description with \x0c form feed, \x1e record separator, \x85 and \u2028 inside\n  # " + "x" * (4 * 1024 * 1024 + 4096) +
+                "\n  Given a\n   | c\x0cd | e\u2029f |\n  When b\n"))
+    out.append(("ragged-then-other-widths", "Feature: f\n Scenario: s\n  Given x\n   | a | b |\n   | c |\n  And three wide\n   | 1 | 2 | 3 |\n   | 4 | 5 | 6 |\n  And one wide\n   | z |\n Scenario Outline: o\n  Given <h>\n  Examples:\n   | h | i | j | k |\n   | 1 | 2 | 3 | 4 |\n"))
     for n in [3, 8, 15, 16, 17, 31, 32, 33, 64, 100]:
         # wide examples tables whose values spell the placeholder of a later / an earlier column (substitution is column by column, in header order)
         hdr = "".join(" c%02d |" % i for i in range(n))
